@@ -478,6 +478,26 @@ def h_inplace_other_operand(eng):
                 eng.prove(bool(np.allclose(x.to_base_units().magnitude, want.to_base_units().magnitude, rtol=1e-12, atol=0)) and x.to_base_units().units == want.to_base_units().units, f"inplace-{oname}:{ub}:{bkind}:same-as-binary-form")
 
 
+def h_masked_arrays(eng):
+    """masked-array magnitudes: the method form answers what the function form answers, and
+    masked entries take no part"""
+    ureg = regs.float_default()
+    data = np.ma.masked_array([[1.0, 2.0, -750.0], [4.0, -9999.0, 6.0]], mask=[[0, 0, 1], [0, 1, 0]])
+    q = ureg.Quantity(data, "meter")
+    for name, meth, func, want in (
+        ("sum", lambda: q.sum(), lambda: np.sum(q), 13.0), ("max", lambda: q.max(), lambda: np.max(q), 6.0), ("min", lambda: q.min(), lambda: np.min(q), 1.0),
+        ("mean", lambda: q.mean(), lambda: np.mean(q), 3.25), ("std", lambda: q.std(), lambda: np.std(q), float(np.std(np.array([1.0, 2.0, 4.0, 6.0])))),
+    ):
+        m_, f_ = meth(), func()
+        eng.prove(abs(float(m_.magnitude) - want) < 1e-12 and str(m_.units) == "meter", f"masked:{name}:method-ignores-masked-entries")
+        eng.prove(abs(float(f_.magnitude) - want) < 1e-12, f"masked:{name}:function-ignores-masked-entries")
+    r = q.sum(axis=1)
+    eng.prove([float(v) for v in r.magnitude] == [3.0, 10.0], "masked:sum-axis:method")
+    c = q.cumsum(axis=1)
+    eng.prove(bool(np.ma.is_masked(c.magnitude)) and float(c.magnitude[0, 1]) == 3.0, "masked:cumsum:mask-kept")
+    eng.prove(bool(np.all(q.magnitude.mask == data.mask)) and float(q.magnitude[0, 0]) == 1.0, "masked:operand-untouched")
+
+
 def h_setitem_float(eng):
     """item assignment on float arrays: the assigned value is converted into the array's units;
     bare numbers are accepted by dimensionless arrays only (read as plain numbers) -- whatever
@@ -619,6 +639,7 @@ def cases(tier, seed):
     out.append(Case("H16.f", "nonmultiplicative-arrays", M, "h_nonmultiplicative_arrays", {}, kind="conc"))
     out.append(Case("H16.f", "setitem-float", M, "h_setitem_float", {}, kind="conc"))
     out.append(Case("H16.d", "inplace-other-operand", M, "h_inplace_other_operand", {}, kind="conc"))
+    out.append(Case("H16.f", "masked-arrays", M, "h_masked_arrays", {}, kind="conc"))
     out.append(Case("H16.d", "inplace:meter,inch", M, "h_inplace", {"ua": "meter", "ub": "inch"}, opts=opts, validate=1))
     out.append(Case("H16.d", "inplace:hour,second", M, "h_inplace", {"ua": "hour", "ub": "second"}, opts=opts, validate=1))
     out.append(Case("H16.obs", "observed", "pvlib.harness.observed", "h_c16", {}, kind="conc"))
